@@ -11,7 +11,11 @@
 //!           non-stealable tasks; ends when every accepted task finished or nothing happened for the
 //!           grace period
 //!   par     FiberPool::parallel_map / parallel_for_each / parallel_reduce / spawn_batch,
-//!           Pipeline::execute_single / process_batch with failing and slow stage functions
+//!           Pipeline::execute_single / process_batch with failing, panicking and slow stage functions
+//!   bulk    more tasks than all queues hold (local queues + the 10 000-entry global queue) behind
+//!           blocked workers: refusals at the limit, every accepted task exactly once (one event)
+//!   global  init_concurrency / WorkStealingExecutor::init / global(): the process-wide executor;
+//!           concurrency::spawn + join_all, parallel_map, parallel_reduce, spawn_blocking
 use serde_json::{json, Value};
 use std::future::Future;
 use std::pin::Pin;
@@ -19,11 +23,23 @@ use std::sync::atomic::{AtomicU64, Ordering};
 use std::sync::{Arc, Mutex};
 use std::time::{Duration, Instant};
 use zipora::concurrency::pipeline::{MapStage, PipelineConfig};
-use zipora::concurrency::{FiberPool, FiberPoolConfig, Pipeline, Task, WorkStealingExecutor, WorkStealingQueue};
+use std::sync::atomic::{AtomicU32, AtomicUsize};
+use zipora::concurrency::fiber_pool::FiberPoolBuilder;
+use zipora::concurrency::work_stealing::ClosureTask;
+use zipora::concurrency::{ConcurrencyConfig, FiberPool, FiberPoolConfig, Pipeline, Task, WorkStealingExecutor, WorkStealingQueue};
 use zipora::error::{Result as ZResult, ZiporaError};
 use zv::*;
 
 type Log = Arc<Mutex<Vec<Value>>>;
+
+type TaskFut = Pin<Box<dyn Future<Output = ZResult<()>> + Send>>;
+
+/// what a task body needs to submit further tasks from inside a task
+#[derive(Clone)]
+struct Nest {
+    ex: Arc<WorkStealingExecutor>,
+    accepted: Arc<AtomicUsize>,
+}
 
 struct T {
     id: u32,
@@ -32,6 +48,9 @@ struct T {
     log: Log,
     last: Arc<AtomicU64>,
     yield_inside: bool,
+    children: Vec<u32>, // tasks this task submits when it runs
+    nest: Option<Nest>,
+    panics: bool,
 }
 fn now_ms(t0: Instant) -> u64 {
     t0.elapsed().as_millis() as u64
@@ -41,18 +60,56 @@ fn t0() -> Instant {
     let mut g = T0.lock().unwrap();
     *g.get_or_insert_with(Instant::now)
 }
-impl Task for T {
-    fn execute(self: Box<Self>) -> Pin<Box<dyn Future<Output = ZResult<()>> + Send>> {
-        Box::pin(async move {
-            self.log.lock().unwrap().push(json!({"op":"exec_start","id":self.id}));
+
+/// logs `exec_panic` when the task body unwinds
+struct PanicNote {
+    id: u32,
+    log: Log,
+    last: Arc<AtomicU64>,
+}
+impl Drop for PanicNote {
+    fn drop(&mut self) {
+        if std::thread::panicking() {
+            self.log.lock().unwrap_or_else(|e| e.into_inner()).push(json!({"op":"exec_panic","id":self.id}));
             self.last.store(now_ms(t0()), Ordering::SeqCst);
-            if self.yield_inside {
-                tokio::task::yield_now().await;
+        }
+    }
+}
+
+/// the body of every task: log the first poll, optionally yield, submit the children, log the end
+#[allow(clippy::too_many_arguments)]
+fn body(id: u32, log: Log, last: Arc<AtomicU64>, yield_inside: bool, children: Vec<u32>, nest: Option<Nest>, panics: bool) -> TaskFut {
+    Box::pin(async move {
+        log.lock().unwrap().push(json!({"op":"exec_start","id":id}));
+        last.store(now_ms(t0()), Ordering::SeqCst);
+        let _note = PanicNote { id, log: log.clone(), last: last.clone() };
+        if yield_inside {
+            tokio::task::yield_now().await;
+        }
+        if let Some(n) = &nest {
+            for c in children {
+                let t = Box::new(T { id: c, prio: (c % 3) as u8, stealable: c % 4 != 0, log: log.clone(), last: last.clone(), yield_inside: false, children: vec![], nest: None, panics: false });
+                log.lock().unwrap().push(json!({"op":"offer","id":c,"prio":c % 3,"stealable":c % 4 != 0,"from_task":id}));
+                let ok = n.ex.submit(t).is_ok();
+                log.lock().unwrap().push(json!({"op":"offer_result","id":c,"ok":ok}));
+                if ok {
+                    n.accepted.fetch_add(1, Ordering::SeqCst);
+                }
+                last.store(now_ms(t0()), Ordering::SeqCst);
             }
-            self.log.lock().unwrap().push(json!({"op":"exec_end","id":self.id}));
-            self.last.store(now_ms(t0()), Ordering::SeqCst);
-            Ok(())
-        })
+        }
+        if panics {
+            panic!("task panic requested by the harness");
+        }
+        log.lock().unwrap().push(json!({"op":"exec_end","id":id}));
+        last.store(now_ms(t0()), Ordering::SeqCst);
+        Ok(())
+    })
+}
+
+impl Task for T {
+    fn execute(self: Box<Self>) -> TaskFut {
+        body(self.id, self.log, self.last, self.yield_inside, self.children, self.nest, self.panics)
     }
     fn priority(&self) -> u8 {
         self.prio
@@ -77,7 +134,7 @@ fn mode_queue(a: &Args) {
     let runs = a.get_u64("n", if a.thorough() { 4000 } else { 500 });
     for run in 0..runs {
         let mut rng = rng0.derive(&format!("{run}"));
-        let cap = *rng.pick(&[1usize, 2, 3, 4, 8]);
+        let cap = *rng.pick(&[1usize, 2, 3, 4, 5, 7, 8]);
         let q = WorkStealingQueue::new(0, cap);
         tr.reset("executor", "wsq", json!({"fam":"wsq","variant":format!("cap{cap}"),"cap":cap}));
         let log: Log = Arc::new(Mutex::new(vec![]));
@@ -91,7 +148,7 @@ fn mode_queue(a: &Args) {
                     next_id += 1;
                     let prio = rng.below(3) as u8;
                     let stealable = rng.chance(3, 4);
-                    let t = Box::new(T { id, prio, stealable, log: log.clone(), last: last.clone(), yield_inside: false });
+                    let t = Box::new(T { id, prio, stealable, log: log.clone(), last: last.clone(), yield_inside: false, children: vec![], nest: None, panics: false });
                     tr.ev(json!({"op":"offer","id":id,"prio":prio,"stealable":stealable}));
                     let ok = q.push_local(t).is_ok();
                     tr.ev(json!({"op":"offer_result","id":id,"ok":ok}));
@@ -140,46 +197,78 @@ fn mode_queue(a: &Args) {
 
 // ---------------------------------------------------------------- real executor
 
+#[derive(Clone, Copy, PartialEq)]
+enum Kind {
+    Custom,        // a harness type implementing Task
+    Closure,       // ClosureTask::new(..).with_priority(..).with_stealable(..).with_estimated_duration(..)
+    SubmitClosure, // WorkStealingExecutor::submit_closure (priority 0, stealable)
+}
+
 struct ExecCfg {
     workers: usize,
     cap: usize,
     tasks: usize,
     burst: bool,
     yield_inside: bool,
+    kind: Kind,
+    nested: bool,             // every third task submits two more tasks from inside its body
+    panic_at: Option<usize>,  // this task panics in the middle of the batch
 }
 
-async fn exec_one(cfg: &ExecCfg, rng: &mut Rng, grace_ms: u64) -> Vec<Value> {
+/// run one batch of tasks on `ex` and return the events.  `executed` in the final event is the number
+/// of tasks the executor counted during this batch (the global executor lives across batches).
+async fn exec_on(ex: Arc<WorkStealingExecutor>, cfg: &ExecCfg, rng: &mut Rng, grace_ms: u64) -> Vec<Value> {
     let mut events = vec![];
-    let ex = match WorkStealingExecutor::new(cfg.workers, cfg.cap) {
-        Ok(e) => e,
-        Err(_) => return vec![json!({"op":"note","what":"executor construction refused"})],
-    };
     let log: Log = Arc::new(Mutex::new(vec![]));
     let last = Arc::new(AtomicU64::new(now_ms(t0())));
+    let executed_before = ex.stats().total_executed;
     // let the workers spin a little on a fresh executor (total_executed = 0: balance() runs every iteration)
     tokio::time::sleep(Duration::from_millis(2)).await;
-    let mut accepted = 0usize;
+    let accepted = Arc::new(AtomicUsize::new(0));
+    let nest = Nest { ex: ex.clone(), accepted: accepted.clone() };
+    let mut next_child = 10_000u32;
     for i in 0..cfg.tasks {
         let id = i as u32 + 1;
-        let prio = rng.below(3) as u8;
-        let stealable = rng.chance(3, 4);
-        let t = Box::new(T { id, prio, stealable, log: log.clone(), last: last.clone(), yield_inside: cfg.yield_inside });
+        let (prio, stealable) = if cfg.kind == Kind::SubmitClosure { (0u8, true) } else { (rng.below(3) as u8, rng.chance(3, 4)) };
+        let children: Vec<u32> = if cfg.nested && i % 3 == 0 {
+            next_child += 2;
+            vec![next_child - 2, next_child - 1]
+        } else {
+            vec![]
+        };
+        let n = if children.is_empty() { None } else { Some(nest.clone()) };
+        let panics = cfg.panic_at == Some(i);
         // the offer is logged before the call: a worker may start the task before submit() returns
         log.lock().unwrap().push(json!({"op":"offer","id":id,"prio":prio,"stealable":stealable}));
-        let ok = ex.submit(t).is_ok();
+        let (l2, la2, yi) = (log.clone(), last.clone(), cfg.yield_inside);
+        let ok = match cfg.kind {
+            Kind::Custom => ex.submit(Box::new(T { id, prio, stealable, log: l2, last: la2, yield_inside: yi, children, nest: n, panics })).is_ok(),
+            Kind::Closure => {
+                let dur = rng.below(5);
+                let t = ClosureTask::new(move || body(id, l2, la2, yi, children, n, panics))
+                    .with_priority(prio)
+                    .with_stealable(stealable)
+                    .with_estimated_duration(Duration::from_millis(dur));
+                events.push(json!({"op":"task_attrs","prio":prio,"stealable":stealable,"dur_ms":dur,
+                                   "got_prio":t.priority(),"got_stealable":t.is_stealable(),"got_dur_ms":t.estimated_duration().as_millis() as u64}));
+                ex.submit(Box::new(t)).is_ok()
+            }
+            Kind::SubmitClosure => ex.submit_closure(move || body(id, l2, la2, yi, children, n, panics)).is_ok(),
+        };
         log.lock().unwrap().push(json!({"op":"offer_result","id":id,"ok":ok}));
         if ok {
-            accepted += 1;
+            accepted.fetch_add(1, Ordering::SeqCst);
         }
         last.store(now_ms(t0()), Ordering::SeqCst);
         if !cfg.burst && rng.chance(1, 3) {
             tokio::task::yield_now().await;
         }
     }
+    let over = |e: &Value| e["op"] == "exec_end" || e["op"] == "exec_panic";
     // wait until every accepted task finished, or nothing has happened for the grace period
     loop {
-        let done = log.lock().unwrap().iter().filter(|e| e["op"] == "exec_end").count();
-        if done >= accepted {
+        let done = log.lock().unwrap().iter().filter(|e| over(e)).count();
+        if done >= accepted.load(Ordering::SeqCst) {
             break;
         }
         if now_ms(t0()).saturating_sub(last.load(Ordering::SeqCst)) > grace_ms {
@@ -187,15 +276,16 @@ async fn exec_one(cfg: &ExecCfg, rng: &mut Rng, grace_ms: u64) -> Vec<Value> {
         }
         tokio::time::sleep(Duration::from_millis(2)).await;
     }
+    let acc = accepted.load(Ordering::SeqCst);
     // settle: the worker bumps its counters right after the task body returned
     for _ in 0..50 {
-        if ex.is_idle() && ex.stats().total_executed as usize >= accepted {
+        if ex.is_idle() && (ex.stats().total_executed - executed_before) as usize >= acc {
             break;
         }
         tokio::time::sleep(Duration::from_millis(2)).await;
     }
     let evs: Vec<Value> = log.lock().unwrap().clone();
-    let done = evs.iter().filter(|e| e["op"] == "exec_end").count();
+    let done = evs.iter().filter(|e| over(e)).count();
     // take = the first poll of the task body
     for e in evs {
         if e["op"] == "exec_start" {
@@ -204,9 +294,25 @@ async fn exec_one(cfg: &ExecCfg, rng: &mut Rng, grace_ms: u64) -> Vec<Value> {
             events.push(e);
         }
     }
-    events.push(json!({"op":"final","queued":ex.total_queued(),"idle":ex.is_idle(),"executed":ex.stats().total_executed,"pending":accepted - done.min(accepted),"queue_only":false}));
+    events.push(json!({"op":"final","queued":ex.total_queued(),"idle":ex.is_idle(),"executed":ex.stats().total_executed - executed_before,
+                       "pending":acc - done.min(acc),"queue_only":false}));
+    events
+}
+
+async fn exec_one(cfg: &ExecCfg, rng: &mut Rng, grace_ms: u64) -> Vec<Value> {
+    let ex = match WorkStealingExecutor::new(cfg.workers, cfg.cap) {
+        Ok(e) => e,
+        Err(_) => return vec![json!({"op":"note","what":"executor construction refused"})],
+    };
+    let events = exec_on(ex.clone(), cfg, rng, grace_ms).await;
     let _ = ex.shutdown().await;
     events
+}
+
+fn reset_cfg(cfg: &ExecCfg) -> Value {
+    json!({"workers":cfg.workers,"cap":cfg.cap,"tasks":cfg.tasks,"burst":cfg.burst,"yield_inside":cfg.yield_inside,"nested":cfg.nested,
+           "kind":match cfg.kind { Kind::Custom => "custom", Kind::Closure => "closure_task", Kind::SubmitClosure => "submit_closure" },
+           "panic_at":opt(cfg.panic_at.map(|x| x as u64))})
 }
 
 fn mode_exec(a: &Args) {
@@ -216,18 +322,30 @@ fn mode_exec(a: &Args) {
     let grace = a.get_u64("grace_ms", 1500);
     let mut cfgs: Vec<ExecCfg> = vec![];
     let reps = if a.thorough() { 6 } else { 2 };
-    for workers in 1..=4usize {
+    let kinds = [Kind::Custom, Kind::Closure, Kind::SubmitClosure, Kind::Custom, Kind::Closure];
+    let mut k = 0usize;
+    for workers in [1usize, 2, 3, 4, 8] {
         for cap in [1usize, 2, 3, 4, 16, 256] {
-            for &tasks in &[1usize, cap, cap + 1, 2 * cap + 1, 7, 40] {
-                for r in 0..reps {
-                    cfgs.push(ExecCfg { workers, cap, tasks, burst: r % 2 == 0, yield_inside: r % 3 == 1 });
+            // around the capacity of one local queue, around the capacity of all local queues together
+            // (beyond it: the global queue), and fixed counts
+            let mut counts = vec![1usize, cap, cap + 1, 2 * cap + 1, 7, 40];
+            if cap <= 16 {
+                counts.extend([workers * cap - 1, workers * cap, workers * cap + 1, 2 * workers * cap + 3]);
+            }
+            counts.retain(|&c| c >= 1 && c <= 300);
+            counts.sort();
+            counts.dedup();
+            for &tasks in &counts {
+                for r in 0..(if workers >= 3 { (reps / 2).max(1) } else { reps }) {
+                    k += 1;
+                    cfgs.push(ExecCfg { workers, cap, tasks, burst: r % 2 == 0, yield_inside: r % 3 == 1, kind: kinds[k % kinds.len()], nested: k % 4 == 3, panic_at: None });
                 }
             }
         }
         // beyond 100 executed tasks: the periodic balance() of a busy executor
         for &tasks in &[130usize, 260] {
-            cfgs.push(ExecCfg { workers, cap: 256, tasks, burst: true, yield_inside: false });
-            cfgs.push(ExecCfg { workers, cap: 8, tasks, burst: false, yield_inside: true });
+            cfgs.push(ExecCfg { workers, cap: 256, tasks, burst: true, yield_inside: false, kind: Kind::Custom, nested: false, panic_at: None });
+            cfgs.push(ExecCfg { workers, cap: 8, tasks, burst: false, yield_inside: true, kind: Kind::Closure, nested: tasks == 130, panic_at: None });
         }
     }
     let rt = tokio::runtime::Builder::new_multi_thread().worker_threads(4).enable_all().build().unwrap();
@@ -238,13 +356,241 @@ fn mode_exec(a: &Args) {
         if events.last().map_or(false, |e| e["pending"].as_u64().unwrap_or(0) > 0) {
             stuck += 1;
         }
-        tr.reset("executor", "wse", json!({"fam":"wse","variant":format!("w{}", cfg.workers),"workers":cfg.workers,"cap":cfg.cap,"tasks":cfg.tasks,"burst":cfg.burst,"yield_inside":cfg.yield_inside}));
+        let mut rc = reset_cfg(cfg);
+        rc["fam"] = json!("wse");
+        rc["variant"] = json!(format!("w{}", cfg.workers));
+        tr.reset("executor", "wse", rc);
+        for e in events {
+            tr.ev(e);
+        }
+    }
+    // a task that panics in the middle of a batch: it is over; every other accepted task still runs
+    let mut pcfgs: Vec<ExecCfg> = vec![];
+    for workers in [1usize, 2, 3, 8] {
+        for (cap, tasks, at) in [(4usize, 3usize, 1usize), (2, 9, 4), (16, 12, 0), (256, 40, 20)] {
+            for r in 0..(if a.thorough() { 3 } else { 1 }) {
+                pcfgs.push(ExecCfg { workers, cap, tasks, burst: r % 2 == 0, yield_inside: r == 1, kind: kinds[(workers + r) % 3], nested: false, panic_at: Some(at) });
+            }
+        }
+    }
+    tr.max_events = 0;
+    let mut pstuck = 0usize;
+    for (i, cfg) in pcfgs.iter().enumerate() {
+        let mut rng = rng0.derive(&format!("p{i}"));
+        let events = rt.block_on(exec_one(cfg, &mut rng, grace.min(600)));
+        if events.last().map_or(false, |e| e["pending"].as_u64().unwrap_or(0) > 0) {
+            pstuck += 1;
+        }
+        let mut rc = reset_cfg(cfg);
+        rc["fam"] = json!("wse");
+        rc["variant"] = json!(format!("w{}_panic", cfg.workers));
+        tr.reset("executor", "wse@panicking_task", rc);
+        tr.max_events = 4000;
         for e in events {
             tr.ev(e);
         }
     }
     tr.close();
-    write_summary(&a.out, &json!({"mode":"exec","configs":cfgs.len(),"stuck_configs":stuck,"events":tr.total_events,"runs":tr.runs}));
+    write_summary(&a.out, &json!({"mode":"exec","configs":cfgs.len() + pcfgs.len(),"stuck_configs":stuck,"panic_configs":pcfgs.len(),"panic_configs_stuck":pstuck,
+                                  "events":tr.total_events,"runs":tr.runs}));
+}
+
+// ---------------------------------------------------------------- more tasks than all queues hold
+
+fn mode_bulk(a: &Args) {
+    let mut tr = Tracer::new(&a.out, "exb");
+    tr.max_events = 0;
+    let rt = tokio::runtime::Builder::new_multi_thread().worker_threads(4).enable_all().build().unwrap();
+    let grace = a.get_u64("grace_ms", 1500);
+    let mut refused_total = 0usize;
+    let mut cfgs = vec![(1usize, 1usize, 10_040usize), (2, 4, 10_060), (3, 2, 600)];
+    if a.thorough() {
+        cfgs.extend([(8usize, 1usize, 10_100usize), (1, 16, 10_100), (4, 256, 11_200)]);
+    }
+    for (workers, cap, n) in cfgs {
+        tr.reset("executor", "wse@bulk", json!({"fam":"wse","variant":format!("w{workers}_bulk"),"workers":workers,"cap":cap,"tasks":n}));
+        let ev = rt.block_on(async {
+            let ex = match WorkStealingExecutor::new(workers, cap) {
+                Ok(e) => e,
+                Err(_) => return json!({"op":"note","what":"executor construction refused"}),
+            };
+            let before = ex.stats().total_executed;
+            // every task waits for the gate: the workers block on the first tasks they take, nothing drains
+            let (gate_tx, gate_rx) = tokio::sync::watch::channel(false);
+            let counts: Arc<Vec<AtomicU32>> = Arc::new((0..n).map(|_| AtomicU32::new(0)).collect());
+            let last = Arc::new(AtomicU64::new(now_ms(t0())));
+            let mut accepted = vec![false; n];
+            for i in 0..n {
+                let (c, mut rx, la) = (counts.clone(), gate_rx.clone(), last.clone());
+                let f = move || -> TaskFut {
+                    Box::pin(async move {
+                        let _ = rx.wait_for(|open| *open).await;
+                        c[i].fetch_add(1, Ordering::SeqCst);
+                        la.store(now_ms(t0()), Ordering::SeqCst);
+                        Ok(())
+                    })
+                };
+                accepted[i] = if i % 2 == 0 {
+                    ex.submit_closure(f).is_ok()
+                } else {
+                    ex.submit(Box::new(ClosureTask::new(f).with_priority((i % 5) as u8).with_stealable(i % 7 != 0))).is_ok()
+                };
+                if i == workers * cap {
+                    // let the workers pick up their first tasks and block
+                    tokio::time::sleep(Duration::from_millis(5)).await;
+                }
+            }
+            let queued_before_open = ex.total_queued();
+            let nacc = accepted.iter().filter(|x| **x).count();
+            let _ = gate_tx.send(true);
+            last.store(now_ms(t0()), Ordering::SeqCst);
+            loop {
+                let ran: usize = counts.iter().filter(|c| c.load(Ordering::SeqCst) > 0).count();
+                if ran >= nacc || now_ms(t0()).saturating_sub(last.load(Ordering::SeqCst)) > grace {
+                    break;
+                }
+                tokio::time::sleep(Duration::from_millis(2)).await;
+            }
+            for _ in 0..100 {
+                if ex.is_idle() && (ex.stats().total_executed - before) as usize >= nacc {
+                    break;
+                }
+                tokio::time::sleep(Duration::from_millis(2)).await;
+            }
+            let execs: Vec<u32> = counts.iter().map(|c| c.load(Ordering::SeqCst)).collect();
+            let e = json!({"op":"bulk","n":n,"accepted":accepted,"execs":execs,"queued":ex.total_queued(),"idle":ex.is_idle(),
+                           "executed":ex.stats().total_executed - before,"queued_before_open":queued_before_open,"refused":n - nacc});
+            let _ = ex.shutdown().await;
+            e
+        });
+        refused_total += ev["refused"].as_u64().unwrap_or(0) as usize;
+        tr.ev(ev);
+    }
+    tr.close();
+    write_summary(&a.out, &json!({"mode":"bulk","events":tr.total_events,"runs":tr.runs,"refused":refused_total}));
+}
+
+// ---------------------------------------------------------------- the process-wide executor and the module-level helpers
+
+fn mode_global(a: &Args) {
+    let mut tr = Tracer::new(&a.out, "exg");
+    tr.max_events = 4000;
+    let rng0 = Rng::new(a.seed).derive("global");
+    let grace = a.get_u64("grace_ms", 1500);
+    // ONE runtime for the whole mode: the workers of the global executor live on it
+    let rt = tokio::runtime::Builder::new_multi_thread().worker_threads(4).enable_all().build().unwrap();
+    let (gw, gcap) = (3usize, 4usize);
+    tr.reset("executor", "wse@global", json!({"fam":"wse","variant":"global_init","workers":gw,"cap":gcap}));
+    let cfg0 = |mf: usize, qs: usize| ConcurrencyConfig { max_fibers: mf, queue_size: qs, numa_aware: false, stack_size: 64 * 1024 };
+    for (mf, qs) in [(0usize, 8usize), (2, 0)] {
+        let ok = rt.block_on(zipora::concurrency::init_concurrency(cfg0(mf, qs))).is_ok();
+        tr.ev(json!({"op":"init","api":"init_concurrency","max_fibers":mf,"queue_size":qs,"ok":ok}));
+    }
+    tr.ev(json!({"op":"global","initialised":false,"present":WorkStealingExecutor::global().is_some()}));
+    let ok = rt.block_on(zipora::concurrency::init_concurrency(cfg0(gw, gcap))).is_ok();
+    tr.ev(json!({"op":"init","api":"init_concurrency","max_fibers":gw,"queue_size":gcap,"ok":ok}));
+    // a second initialisation (other sizes) through the other entry point: the executor in place stays
+    let ok2 = rt.block_on(WorkStealingExecutor::init(cfg0(1, 1))).is_ok();
+    tr.ev(json!({"op":"init","api":"WorkStealingExecutor::init","max_fibers":1,"queue_size":1,"ok":ok2}));
+    tr.ev(json!({"op":"global","initialised":ok,"present":WorkStealingExecutor::global().is_some()}));
+    let mut runs = 0;
+    if let Some(ex) = WorkStealingExecutor::global() {
+        let kinds = [Kind::Custom, Kind::Closure, Kind::SubmitClosure];
+        let counts: &[usize] = if a.thorough() { &[1, 3, 4, 5, 11, 12, 13, 27, 40, 130, 260] } else { &[1, 4, 12, 13, 27, 130] };
+        for (i, &tasks) in counts.iter().enumerate() {
+            for r in 0..2usize {
+                let cfg = ExecCfg { workers: gw, cap: gcap, tasks, burst: r == 0, yield_inside: (i + r) % 3 == 1, kind: kinds[(i + r) % 3], nested: (i + r) % 2 == 1, panic_at: None };
+                let mut rng = rng0.derive(&format!("g{i}/{r}"));
+                let events = rt.block_on(exec_on(ex.clone(), &cfg, &mut rng, grace));
+                let mut rc = reset_cfg(&cfg);
+                rc["fam"] = json!("wse");
+                rc["variant"] = json!("global");
+                tr.reset("executor", "wse@global", rc);
+                for e in events {
+                    tr.ev(e);
+                }
+                runs += 1;
+            }
+        }
+    }
+    // concurrency::spawn + join_all, parallel_map, parallel_reduce, spawn_blocking (module level)
+    tr.max_events = 0;
+    let n_runs = a.get_u64("n", if a.thorough() { 600 } else { 120 });
+    let cpus = std::thread::available_parallelism().map(|n| n.get()).unwrap_or(4);
+    let _guard = rt.enter();
+    for run in 0..n_runs {
+        let mut rng = rng0.derive(&format!("m{run}"));
+        // lengths around the chunking of parallel_reduce (ceil(n / cpus) items per chunk)
+        let n = *rng.pick(&[0usize, 1, 2, 5, cpus - 1, cpus, cpus + 1, 2 * cpus + 1, 40]);
+        let input: Vec<u32> = (0..n).map(|_| rng.below(50) as u32).collect();
+        let fail: Vec<u32> = if !input.is_empty() && rng.chance(1, 3) { vec![*rng.pick(&input)] } else { vec![] };
+        let pan: Vec<u32> = if !input.is_empty() && rng.chance(1, 4) { vec![*rng.pick(&input)] } else { vec![] };
+        let bad: Vec<u32> = fail.iter().chain(pan.iter()).copied().collect();
+        tr.reset("executor", "par@module", json!({"fam":"par","variant":"module_level","cpus":cpus}));
+        tr.max_events = 4000;
+        // spawn + join_all: one result per handle, in order; a failing / panicking fiber is the error of the call
+        let handles: Vec<_> = input.iter().map(|&x| {
+            let (f, p) = (fail.clone(), pan.clone());
+            zipora::concurrency::spawn(async move {
+                if x % 3 == 0 {
+                    tokio::task::yield_now().await;
+                }
+                if p.contains(&x) {
+                    panic!("fiber panic requested by the harness");
+                }
+                stage(x, &f)
+            })
+        }).collect();
+        let r = rt.block_on(zipora::concurrency::join_all(handles));
+        let (ok, out) = res_json(&r);
+        tr.ev(json!({"op":"pmap","api":"concurrency::spawn+join_all","in":input,"fail":bad,"panics":pan,"ok":ok,"out":out}));
+        let (f, p) = (fail.clone(), pan.clone());
+        let r = rt.block_on(zipora::concurrency::parallel_map(input.clone(), move |x| {
+            if p.contains(&x) {
+                panic!("panic requested by the harness");
+            }
+            stage(x, &f)
+        }));
+        let (ok, out) = res_json(&r);
+        tr.ev(json!({"op":"pmap","api":"concurrency::parallel_map","in":input,"fail":bad,"panics":pan,"ok":ok,"out":out}));
+        let items: Vec<Vec<u32>> = input.iter().map(|x| vec![*x]).collect();
+        let r = rt.block_on(zipora::concurrency::parallel_reduce(items, vec![], |mut acc: Vec<u32>, mut x: Vec<u32>| {
+            acc.append(&mut x);
+            Ok(acc)
+        }));
+        let (ok, out) = res_json(&r);
+        tr.ev(json!({"op":"preduce","api":"concurrency::parallel_reduce","in":input,"ok":ok,"out":out}));
+        // spawn_blocking: result i belongs to closure i
+        let outs: Vec<Value> = rt.block_on(async {
+            let mut futs = vec![];
+            for &x in &input {
+                let (f, p) = (fail.clone(), pan.clone());
+                futs.push(zipora::concurrency::spawn_blocking(move || {
+                    if p.contains(&x) {
+                        panic!("panic requested by the harness");
+                    }
+                    stage(x, &f)
+                }));
+            }
+            let mut v = vec![];
+            // awaited in reverse: the result must not depend on the order of completion / polling
+            let mut slots: Vec<Option<Value>> = vec![None; futs.len()];
+            for (i, fut) in futs.into_iter().enumerate().rev() {
+                slots[i] = Some(match fut.await {
+                    Ok(x) => json!([x]),
+                    Err(_) => json!([]),
+                });
+            }
+            for s in slots {
+                v.push(s.unwrap());
+            }
+            v
+        });
+        tr.ev(json!({"op":"pbatch","api":"concurrency::spawn_blocking","in":input,"fail":bad,"panics":pan,"handles":input.len(),"out":outs}));
+        runs += 1;
+    }
+    tr.close();
+    write_summary(&a.out, &json!({"mode":"global","events":tr.total_events,"runs":tr.runs,"batches":runs}));
 }
 
 // ---------------------------------------------------------------- parallel map / reduce / pipelines
@@ -278,28 +624,47 @@ fn mode_par(a: &Args) {
         let input: Vec<u32> = (0..n).map(|_| rng.below(50) as u32).collect();
         let nfail = if rng.chance(1, 3) { rng.range(1, 2) as usize } else { 0 };
         let fail: Vec<u32> = (0..nfail).map(|_| if input.is_empty() { 3 } else { *rng.pick(&input) }).collect();
-        let max_fibers = *rng.pick(&[1usize, 2, 3, 8]);
-        let max_workers = *rng.pick(&[1usize, 2, 3, 7]);
-        let cfgp = FiberPoolConfig { max_fibers, initial_workers: 1, max_workers, queue_capacity: 64, idle_timeout: Duration::from_secs(1) };
-        tr.reset("executor", "par", json!({"fam":"par","variant":"fiber_pool","max_fibers":max_fibers,"max_workers":max_workers}));
-        let pool = match FiberPool::new(cfgp) {
+        // the in-flight limit (semaphore) at / below / above the number of items; the chunking of
+        // parallel_reduce (max(1, n / max_workers) items per chunk) with n below, at, above and not a
+        // multiple of max_workers
+        let max_fibers = *rng.pick(&[1usize, 2, 3, 8, n.max(1), n + 1]);
+        let max_workers = *rng.pick(&[1usize, 2, 3, 7, 8, n.max(1), n + 1]);
+        let via_builder = rng.chance(1, 3);
+        tr.reset("executor", "par", json!({"fam":"par","variant":"fiber_pool","max_fibers":max_fibers,"max_workers":max_workers,"builder":via_builder}));
+        let made = if via_builder {
+            FiberPoolBuilder::new().max_fibers(max_fibers).initial_workers(1).max_workers(max_workers).queue_capacity(64).idle_timeout(Duration::from_secs(1)).build()
+        } else {
+            FiberPool::new(FiberPoolConfig { max_fibers, initial_workers: 1, max_workers, queue_capacity: 64, idle_timeout: Duration::from_secs(1) })
+        };
+        let pool = match made {
             Ok(p) => p,
             Err(_) => continue,
         };
-        let f = fail.clone();
-        let r = rt.block_on(pool.parallel_map(input.clone(), move |x| stage(x, &f)));
+        // an item whose function panics in the middle of the batch: an error of the call / of ITS handle
+        let pan: Vec<u32> = if !input.is_empty() && rng.chance(1, 4) { vec![*rng.pick(&input)] } else { vec![] };
+        let bad: Vec<u32> = fail.iter().chain(pan.iter()).copied().collect();
+        let (f, p) = (fail.clone(), pan.clone());
+        let r = rt.block_on(pool.parallel_map(input.clone(), move |x| {
+            if p.contains(&x) {
+                panic!("panic requested by the harness");
+            }
+            stage(x, &f)
+        }));
         let (ok, out) = res_json(&r);
-        tr.ev(json!({"op":"pmap","api":"FiberPool::parallel_map","in":input,"fail":fail,"ok":ok,"out":out}));
+        tr.ev(json!({"op":"pmap","api":"FiberPool::parallel_map","in":input,"fail":bad,"panics":pan,"ok":ok,"out":out}));
         // for_each: every input processed exactly once
         let seen: Arc<Mutex<Vec<u32>>> = Arc::new(Mutex::new(vec![]));
-        let (s2, f) = (seen.clone(), fail.clone());
+        let (s2, f, p) = (seen.clone(), fail.clone(), pan.clone());
         let r = rt.block_on(pool.parallel_for_each(input.clone(), move |x| {
-            s2.lock().unwrap().push(x);
+            s2.lock().unwrap_or_else(|e| e.into_inner()).push(x);
+            if p.contains(&x) {
+                panic!("panic requested by the harness");
+            }
             stage(x, &f).map(|_| ())
         }));
-        let mut seen_v = seen.lock().unwrap().clone();
+        let mut seen_v = seen.lock().unwrap_or_else(|e| e.into_inner()).clone();
         seen_v.sort();
-        tr.ev(json!({"op":"pforeach","in":input,"fail":fail,"ok":r.is_ok(),"seen_sorted":seen_v}));
+        tr.ev(json!({"op":"pforeach","in":input,"fail":bad,"panics":pan,"ok":r.is_ok(),"seen_sorted":seen_v}));
         // reduce with a non-commutative, associative operation: concatenation of digit strings
         let items: Vec<Vec<u32>> = input.iter().map(|x| vec![*x]).collect();
         let r = rt.block_on(pool.parallel_reduce(items, vec![], |mut acc: Vec<u32>, mut x: Vec<u32>| {
@@ -309,10 +674,15 @@ fn mode_par(a: &Args) {
         let (ok, out) = res_json(&r);
         tr.ev(json!({"op":"preduce","in":input,"ok":ok,"out":out}));
         // spawn_batch: one handle per future, results by index
-        let f = fail.clone();
+        let (f, p) = (fail.clone(), pan.clone());
         let futs: Vec<_> = input.iter().map(|&x| {
-            let f = f.clone();
-            async move { stage(x, &f) }
+            let (f, p) = (f.clone(), p.clone());
+            async move {
+                if p.contains(&x) {
+                    panic!("panic requested by the harness");
+                }
+                stage(x, &f)
+            }
         }).collect();
         let handles = pool.spawn_batch(futs);
         let nh = handles.len();
@@ -326,13 +696,13 @@ fn mode_par(a: &Args) {
             }
             v
         });
-        tr.ev(json!({"op":"pbatch","in":input,"fail":fail,"handles":nh,"out":outs}));
+        tr.ev(json!({"op":"pbatch","api":"FiberPool::spawn_batch","in":input,"fail":bad,"panics":pan,"handles":nh,"out":outs}));
         // Pipeline::process_batch / execute_single with a MapStage; slow items exceed the stage timeout
         let slow: Vec<u32> = if rng.chance(1, 4) && !input.is_empty() { vec![*rng.pick(&input)] } else { vec![] };
         let mut pc = PipelineConfig::default();
         pc.stage_timeout = Duration::from_millis(40);
         pc.enable_batching = rng.chance(1, 2);
-        pc.max_in_flight = *rng.pick(&[1usize, 2, 100]);
+        pc.max_in_flight = *rng.pick(&[1usize, 2, n.max(1), n + 1, 100]);
         let p = Pipeline::new(pc.clone());
         let (f, s) = (fail.clone(), slow.clone());
         let st = MapStage::new("m".to_string(), move |x: u32| {
@@ -364,6 +734,8 @@ fn main() {
         "queue" => mode_queue(&a),
         "exec" => mode_exec(&a),
         "par" => mode_par(&a),
+        "bulk" => mode_bulk(&a),
+        "global" => mode_global(&a),
         m => {
             eprintln!("c18: unknown mode {m}");
             std::process::exit(2)
